@@ -3,6 +3,7 @@
 package jobs
 
 import (
+	"time"
 	"context"
 	"errors"
 	"strconv"
@@ -69,6 +70,10 @@ type vTransform struct {
 	fail  bool
 	modes []int // per call mode (overrides mode when set)
 	created []*server.Entity
+	// slowHead: natively, the call that is handed the first source entity takes longer than the
+	// others, so that a later chunk's worker finishes first (under gosx the completion order of
+	// the workers is a scheduling choice and the delay has no effect)
+	slowHead *server.Entity
 }
 
 func (t *vTransform) GetConfig() map[string]interface{} { return map[string]interface{}{"Type": "VerifTransform"} }
@@ -77,6 +82,9 @@ func (t *vTransform) EndStoreContext(string) error      { t.ended++; return nil 
 func (t *vTransform) transformEntities(runner *Runner, entities []*server.Entity, jobTag string) ([]*server.Entity, error) {
 	t.calls++
 	t.seen = append(t.seen, entities...)
+	if t.slowHead != nil && len(entities) > 0 && entities[0] == t.slowHead {
+		time.Sleep(40 * time.Millisecond)
+	}
 	if t.fail {
 		return nil, errors.New("transform failure")
 	}
